@@ -156,7 +156,7 @@ Lemma finish_rel l n final fin (a : H) (b : sres * store * trace) :
   relQ (fun v st => st (T n) = v) a b ->
   match final with
   | None => fin = []
-  | Some f => exists rf, fin = rs rf ++ rs (expr_as_stmt rf) /\ simb f rf
+  | Some f => exists rf, fin = or_pass (rs rf ++ rs (expr_as_stmt rf)) /\ simb f rf
   end ->
   (forall s t, (snd (fst (prun1 (rec_at l) fin s t))) (T n) = s (T n)) ->
   rel (hfinish fault issub (hrec_at l) final a)
@@ -175,8 +175,8 @@ Proof.
     destruct final as [f|].
     + destruct Hfin as [rf [-> Hrf]].
       pose proof (block_eas (rec_at l) rf _ sb ta (Hrf l sa sb ta E2)) as R.
-      specialize (Hkeep sb ta).
-      unfold hfinish, PyFacts.finish1.
+      specialize (Hkeep sb ta). rewrite prun1_or_pass in Hkeep.
+      unfold hfinish, PyFacts.finish1. rewrite prun1_or_pass.
       destruct (hseq (hrec_at l) f VNone sa ta) as [[og sg] tg].
       destruct (prun1 (rec_at l) (rs rf ++ rs (expr_as_stmt rf)) sb ta) as [[oh sh] th].
       cbn [fst snd] in *.
@@ -262,7 +262,7 @@ Proof.
        let '(fin, c4) :=
          match f with
          | None => ([], c3)
-         | Some f0 => let '(rf, c4) := cbranch f0 rempty None c3 in (rs (radd rf (expr_as_stmt rf)), c4)
+         | Some f0 => let '(rf, c4) := cbranch f0 rempty None c3 in (or_pass (rs (radd rf (expr_as_stmt rf))), c4)
          end in
        let body_stmts :=
          or_pass (match orel with
@@ -284,18 +284,18 @@ Proof.
               end) as [orel c3] eqn:Eo.
     destruct (match f with
               | None => ([], c3)
-              | Some f0 => let '(rf, c4) := cbranch f0 rempty None c3 in (rs (radd rf (expr_as_stmt rf)), c4)
+              | Some f0 => let '(rf, c4) := cbranch f0 rempty None c3 in (or_pass (rs (radd rf (expr_as_stmt rf))), c4)
               end) as [fin c4] eqn:Ef.
     inversion Hc; subst r c4. clear Hc.
     (* finally *)
     assert (HF : snd c3 = false /\ fst c3 <= fst c' /\ tL (inr (fst c3) (fst c')) fin = true /\
-                 match f with None => fin = [] | Some f0 => exists rf, fin = rs rf ++ rs (expr_as_stmt rf) /\ simb f0 rf end).
+                 match f with None => fin = [] | Some f0 => exists rf, fin = or_pass (rs rf ++ rs (expr_as_stmt rf)) /\ simb f0 rf end).
     { destruct f as [f0|]; [|inversion Ef; subst; repeat split; auto].
       destruct (cbranch f0 rempty None c3) as [rf c4'] eqn:Erf. inversion Ef; subst. cbn [Popt] in Sf, Mf.
       destruct (compile_range_branch f0 c3 rf c' Erf) as [L4 R4].
       split; [exact (mono_back_cbranch f0 rempty None c3 rf c' Mf Erf Hfl)|]. split; [exact L4|]. split.
       - assert (Q : tR (inr (fst c3) (fst c')) (radd rf (expr_as_stmt rf)) = true) by (apply tR_radd; [|apply tR_eas]; exact R4).
-        apply tR_parts in Q. apply Q.
+        apply tR_parts in Q. apply tL_or_pass. apply Q.
       - exists rf. split; [reflexivity|]. eapply block_sim; eassumption. }
     destruct HF as [Hf3 [L4 [TF HFin]]].
     (* else *)
